@@ -34,6 +34,8 @@ CONSTANTS
   Caps,              \* explored values of MaxActiveDatabases: 0 = large (nothing is ever evicted), 1 = one active database
   Kinds,             \* kinds of writes
   Profiles,          \* settings given to CreateDatabaseV2: subset of {"default", "small", "embedded", "replica"} (default = none given)
+  DefaultProfileDBs, \* user databases that may be created without settings (bounds the cost of the replay: a store with the
+                     \* default limits allocates tens of megabytes at every open)
   Fields,            \* settings changed by UpdateDatabaseV2: subset of {"sf", "wb", "ix", "auto"} = sync frequency, write buffer
                      \* size, index + hash-tree options, autoload
   MaxUpd,            \* settings updates per behaviour
@@ -114,6 +116,7 @@ Init ==
 \* CreateDatabaseV2(d, settings of profile p): settings saved, entry put; the store is not opened yet
 Create(d, p) ==
   /\ d \in UserDBs /\ life[d] = "absent"
+  /\ (p = "default" => d \in DefaultProfileDBs)
   /\ life' = [life EXCEPT ![d] = "loaded"]
   /\ stored' = [stored EXCEPT ![d] = Saved(NewOpts(p))]
   /\ entry' = [entry EXCEPT ![d] = NewOpts(p)]
